@@ -422,6 +422,7 @@ def run(ctx: Ctx) -> None:
     _memo.rule_isinstance_on_class(ctx, ['graphiq/circuit/ops.py', 'graphiq/backends/density_matrix/functions.py'])
     _memo.rule_zip_truncation(ctx, ['graphiq/circuit/ops.py', 'graphiq/backends/density_matrix/functions.py'])
     _memo.rule_search_fallthrough(ctx, ['graphiq/circuit/ops.py', 'graphiq/backends/density_matrix/functions.py'])
+    _memo.rule_zip_pairing(ctx, ['graphiq/circuit/ops.py', 'graphiq/backends/density_matrix/functions.py'])
     rule_phase_pivot(ctx)
     rule_equiv_decision(ctx)
     rule_clifford24(ctx)
